@@ -134,9 +134,20 @@ def classify_pairs(sc: IndexScope, comp: ast.ListComp, rule_enum: str, obs: List
             obs.append(violation(rule_enum, t, f.loc(comp), key=f"{fn}::pairs::filter::{ast.unparse(c)}",
                                  detail=f"filter `{ast.unparse(c)}` does not select each unordered pair once"))
             return TID, TID
+    enum_start = 0
     enum_first = isinstance(g1.target, ast.Tuple) and len(g1.target.elts) == 2 and all(isinstance(e, ast.Name) for e in g1.target.elts) \
         and isinstance(g1.iter, ast.Call) and isinstance(g1.iter.func, ast.Name) and g1.iter.func.id == 'enumerate' \
-        and len(g1.iter.args) == 1 and isinstance(g1.iter.args[0], ast.Name) and g1.iter.args[0].id == sc.idx and not g1.iter.keywords
+        and len(g1.iter.args) in (1, 2) and isinstance(g1.iter.args[0], ast.Name) and g1.iter.args[0].id == sc.idx
+    if enum_first:
+        # enumerate(idx, start=1) / enumerate(idx, 1): the counter is the position plus one
+        st_ = g1.iter.args[1] if len(g1.iter.args) == 2 else next((k_.value for k_ in g1.iter.keywords if k_.arg == 'start'), None)
+        if any(k_.arg != 'start' for k_ in g1.iter.keywords) or (len(g1.iter.args) == 2 and g1.iter.keywords):
+            enum_first = False
+        elif st_ is not None:
+            if isinstance(st_, ast.Constant) and st_.value in (0, 1) and not isinstance(st_.value, bool):
+                enum_start = st_.value
+            else:
+                enum_first = False
     if not ((isinstance(g1.target, ast.Name) or enum_first) and isinstance(g2.target, ast.Name)) or g1.ifs or g2.ifs:
         obs.append(inconclusive(rule_enum, f"{f.name}: pair comprehension has two plain generators", f.loc(comp), construct=fn))
         return None
@@ -170,6 +181,8 @@ def classify_pairs(sc: IndexScope, comp: ast.ListComp, rule_enum: str, obs: List
     det = ast.unparse(it2)
 
     def is_a_plus_1(e):
+        if enum_start == 1:
+            return isinstance(e, ast.Name) and e.id == a          # the counter already is the next position
         return isinstance(e, ast.BinOp) and isinstance(e.op, ast.Add) and (
             (isinstance(e.left, ast.Name) and e.left.id == a and isinstance(e.right, ast.Constant) and e.right.value == 1) or
             (isinstance(e.right, ast.Name) and e.right.id == a and isinstance(e.left, ast.Constant) and e.left.value == 1))
